@@ -79,7 +79,7 @@ def schemas : List MsgSchema := [
   -- server JoinRoom.request
   ⟨.server, .request, 4, 14, false, false,
     [⟨.prim .str, .always, false, .missing⟩,
-     ⟨.prim .u32, .always, true, .bool false⟩]⟩,
+     ⟨.prim .u32, .always, true, .nat 0⟩]⟩,
   -- server JoinRoom.response
   ⟨.server, .response, 4, 14, false, false,
     [⟨.prim .str, .always, false, .missing⟩,
